@@ -32,18 +32,19 @@ HASHS = [B + 'belt_hash.c', B + 'belt_compr.c']
 HMACS = [B + 'belt_hmac.c', B + 'belt_compr.c']
 BASH = ['src/crypto/bash/bash_hash.c', 'src/crypto/bash/bash_prg.c']
 BOTP = ['src/crypto/botp.c', 'src/core/dec.c', 'src/core/str.c', 'src/core/tm.c']
-UF = 'stubs/belt_block_uf.c'
-UFB = 'stubs/bashf_uf.c'
+UF = 'harness/C07/belt_block_havoc.c'
+UFB = 'harness/C07/bashf_havoc.c'
 FS = ['--max-field-sensitivity-array-size', '512']
 DBG = 'harness/C07/dbg_stubs.c'
+LIBC = 'harness/C07/libc_words.c'
 DBG_REMOVE = {'src/core/mem.c': ['memIsDisjoint', 'memIsSameOrDisjoint', 'memIsDisjoint2'], 'src/core/util.c': ['utilAssert']}
 
 # (bundle, -D, sources, stubs, functions, [(klen, n, m)] quick, [(klen, n, m)] more for thorough, unwind)
 def bundles():
     K = (16, 24, 32)
     L = []
-    def add(name, d, srcs, funcs, quick, more=(), stub=(UF,), unwind=40, defs=(), rules=()):
-        L.append(dict(name=name, d=d, srcs=srcs, funcs=funcs, quick=list(quick), more=list(more), stub=list(stub), unwind=unwind, defs=list(defs), rules=list(rules)))
+    def add(name, d, srcs, funcs, quick, more=(), stub=(UF,), unwind=40, defs=(), rules=(), fs=512, extra=(), libc=False):
+        L.append(dict(fs=fs, extra=list(extra), name=name, libc=libc, d=d, srcs=srcs, funcs=funcs, quick=list(quick), more=list(more), stub=list(stub) + ([LIBC] if libc else []), unwind=unwind, defs=list(defs), rules=list(rules) + ([(r'^mem(cpy|move|set)\.\d+$', 700)] if libc else [])))
     blk = [LCL, BLOCK]
     add('beltECB', 'B_ECB', blk + [B + 'belt_ecb.c'], ['beltECB_keep', 'beltECBStart', 'beltECBStepE', 'beltECBStepD'],
         [(16, 16, 17), (32, 32, 47)], [(24, 48, 31), (32, 16, 16)])
@@ -70,7 +71,7 @@ def bundles():
     for nm in ('DWP', 'CHE'):
         add('belt' + nm, 'B_' + nm, blk + [B + 'belt_%s.c' % nm.lower(), B + 'belt_ctr.c'] + PP,
             ['belt%s_keep' % nm] + ['belt%s%s' % (nm, f) for f in ('Start', 'StepE', 'StepI', 'StepA', 'StepG', 'StepV', 'StepD')] + ['beltPolyMul', 'ppMul', 'ppRedBelt'],
-            [(16, 0, 1), (32, 17, 15), (24, 16, 33)], [(32, 1, 16), (32, 33, 0), (32, 15, 17)], unwind=72)
+            [(16, 0, 1), (32, 17, 15), (24, 16, 33)], [(32, 1, 16), (32, 33, 0), (32, 15, 17)], unwind=72, extra=['--slice-formula'])
     # FMT: vp_body(klen, mod, count). b = blocks per half: 1 -> block cipher, 2 -> belt-32block, >= 3 -> WBL
     add('beltFMT', 'B_FMT', blk + [B + 'belt_fmt.c', B + 'belt_wbl.c'] + ZZ, ['beltFMT_keep', 'beltFMTStart', 'beltFMTStepE', 'beltFMTStepD', 'beltFMTCalcB', 'beltStr2Bin', 'beltBin2StrAdd', 'beltBin2StrSub', 'belt32BlockEncr'],
         [(16, 10, 2), (32, 10, 9), (32, 65536, 9), (24, 2, 40), (32, 256, 17), (32, 65536, 24)],
@@ -85,20 +86,20 @@ def bundles():
             [(256, 0, 1), (256, 64, 65)] if key != 32 else [(128, 1, 0), (256, 90, 96)],
             [(128, 96, 70), (192, 95, 1)] if key != 60 else [(256, 63, 64)], stub=(UFB,), unwind=200, defs=['PRG_D=%d' % d, 'PRG_ANN=%d' % ann, 'PRG_KEY=%d' % key])
     add('brngCTR', 'B_BRNGCTR', blk + ['src/crypto/brng.c'] + HASHS + [B + 'belt_hmac.c'], ['brngCTR_keep', 'brngCTRStart', 'brngCTRStepR', 'brngCTRStepG'],
-        [(1, 0, 1), (1, 33, 31), (0, 32, 5)], [(1, 5, 60), (1, 64, 0)], unwind=72)
+        [(1, 0, 1), (1, 33, 31), (0, 32, 5)], [(1, 5, 60), (1, 64, 0)], unwind=72, fs=1024, libc=True)
     for ivl in (16, 65):
         add('brngHMAC_iv%d' % ivl, 'B_BRNGHMAC', blk + ['src/crypto/brng.c'] + HASHS + [B + 'belt_hmac.c'], ['brngHMAC_keep', 'brngHMACStart', 'brngHMACStepR'],
-            [(32, 1, 32)] if ivl == 16 else [(16, 33, 0)], [(0, 31, 33), (40, 0, 64)], unwind=72, defs=['IV_LEN=%d' % ivl])
+            [(32, 1, 32)] if ivl == 16 else [(16, 33, 0)], [(0, 31, 33), (40, 0, 64)], unwind=72, defs=['IV_LEN=%d' % ivl], fs=1024, libc=True)
     add('botpHOTP', 'B_HOTP', blk + BOTP + HMACS, ['botpHOTP_keep', 'botpHOTPStart', 'botpHOTPStepS', 'botpHOTPStepR', 'botpHOTPStepV', 'botpHOTPStepG', 'botpDT', 'botpCtrNext', 'decFromU32'],
-        [(32, 6, 0), (16, 8, 0)], [(33, 7, 0)], unwind=72)
+        [(32, 6, 0), (16, 8, 0)], [(33, 7, 0)], unwind=72, fs=1024, libc=True, defs=['VP_STATE_BYTES'])
     add('botpTOTP', 'B_TOTP', blk + BOTP + HMACS, ['botpTOTP_keep', 'botpTOTPStart', 'botpTOTPStepR', 'botpTOTPStepV'],
-        [(32, 6, 0), (16, 8, 0)], [(33, 7, 0)], unwind=72)
+        [(32, 6, 0), (16, 8, 0)], [(33, 7, 0)], unwind=72, fs=1024, libc=True, defs=['VP_STATE_BYTES'])
     OCRA = [('full', '"OCRA-1:HOTP-HBELT-6:C-QN08-PHBELT-S016-T1M"', 6, 32, 16, [(32, 4, 0), (32, 16, 0)]),
             ('min', '"OCRA-1:HOTP-HBELT-9:QA64"', 9, 0, 0, [(16, 128, 0)]),
             ('sha512', '"OCRA-1:HOTP-HBELT-4:QH10-PSHA512-S064"', 4, 64, 64, [(32, 20, 0)])]
     for (nm, suite, dg, p, s, inst) in OCRA:
         add('botpOCRA_' + nm, 'B_OCRA', blk + BOTP + HMACS, ['botpOCRA_keep', 'botpOCRAStart', 'botpOCRAStepS', 'botpOCRAStepR', 'botpOCRAStepV', 'botpOCRAStepG'],
-            inst if nm != 'sha512' else [], inst if nm == 'sha512' else [], unwind=140,
+            inst if nm != 'sha512' else [], inst if nm == 'sha512' else [], unwind=140, fs=2048, libc=True,
             defs=['OCRA_SUITE=' + suite, 'OCRA_DIGIT=%d' % dg, 'OCRA_P=%d' % p, 'OCRA_S=%d' % s])
     return L
 
@@ -120,14 +121,60 @@ def keep_obs(tier):
                     defs=[b['d']] + b['defs'] + (['VP_DBG'] if dbg else []), word=word, ndebug=not dbg,
                     instances=[('k_%d_%d_%d' % t, '%d, %d, %d' % t) for t in ii],
                     srcs=srcs, stub_files=b['stub'] + ([DBG] if dbg else []), unwind=b['unwind'], unwind_rules=b['rules'],
-                    timeout=240, mem_gb=6, cbmc_extra=FS, replay='asan', funcs=b['funcs'],
+                    timeout=240, mem_gb=6, cbmc_extra=['--max-field-sensitivity-array-size', str(b['fs'])] + b['extra'], replay='asan', funcs=b['funcs'],
                     stubs=[s.split('/')[-1][:-2] for s in b['stub']] + (['dbg_stubs (utilAssert -> property, object-aware memIsDisjoint*)'] if dbg else []),
                     bound='state = heap object of exactly %s octets, every caller buffer an exact-size heap object; word=%d, NDEBUG %s; concrete (klen|level, n, m) in %s, all data/key/iv octets symbolic; loops <= %d'
                           % (b['funcs'][0] + '()', word, 'off (library ASSERTs live)' if dbg else 'on', ii, b['unwind'])))
     return obs
 
+def kernel_obs(tier):
+    obs = []
+    def k(name, entry, srcs, funcs, word, bound, unwind=40, timeout=240, checks=None):
+        obs.append(Ob(name='c07_kernel_%s_w%d' % (name, word), harness='harness/C07/kernel.c', entry=entry, word=word, srcs=[f for f in CORE if not (word == 16 and f.endswith('u64.c'))] + srcs,
+                      unwind=unwind, timeout=timeout, mem_gb=6, cbmc_extra=FS + ['--slice-formula'], replay='asan', funcs=funcs, bound=bound, checks=checks))
+    blk = [LCL, B + 'belt_block.c']
+    NOSO = ['--bounds-check', '--pointer-check', '--undefined-shift-check', '--div-by-zero-check']
+    for w in (64, 32):
+        k('beltBlock', 'h_block', blk, BLOCK_FUNCS, w, 'REAL cipher: one call of each of the six block entry points, block/key/word operands exact-size heap objects, all data symbolic')
+        k('beltKeyExpand', 'h_keyexpand', blk, ['beltKeyExpand', 'beltKeyExpand2', 'beltH'], w, 'key lengths 16, 24, 32; key = heap object of exactly len octets, output exactly 32 octets')
+        k('beltCompr', 'h_compr', blk + [B + 'belt_compr.c'], ['beltCompr', 'beltCompr2', 'beltCompr_deep'], w, 'REAL cipher; h[8], X[8], s[4] exact, stack = exactly beltCompr_deep() octets')
+        k('beltWBL', 'h_wbl', blk + [B + 'belt_wbl.c'], ['beltWBLStart', 'beltWBLStepE', 'beltWBLStepD2'], w, 'REAL cipher, 33-octet wide block (6 rounds each), state exactly beltWBL_keep()', unwind=48)
+    for w in (64, 32, 16):
+        k('bashF', 'h_bashF', ['src/crypto/bash/bash_f.c'], ['bashF', 'bashF_deep'], w, 'REAL bash-f (bash_f64.c at W64/W32, bash_f32.c at W16), block = exactly 192 octets, stack = exactly bashF_deep() octets',
+          unwind=30, checks=NOSO if w == 16 else None)
+    return obs
+
+# (group, -D, sources, stubs, functions, instances quick, more)
+def hl_obs(tier):
+    obs = []
+    blk = [LCL, BLOCK]
+    def h(name, d, srcs, funcs, quick, more=(), stub=(UF,), unwind=72, words=(64, 32)):
+        inst = list(quick) + (list(more) if tier != 'quick' else [])
+        for w in words:
+            ss = []
+            for s in CORE + ['src/core/blob.c'] + srcs:
+                if s == 'src/core/mem.c': s = (s, {'remove': ['memAlloc']})
+                ss.append(s)
+            obs.append(Ob(name='c07_blob_%s_w%d' % (name, w), harness='harness/C07/hl.c', defs=[d], word=w, blob_exact=True,
+                          instances=[('k_%d_%d_%d' % t, '%d, %d, %d' % t) for t in inst], srcs=ss, stub_files=list(stub) + ['harness/C07/alloc_typed.c'],
+                          unwind=unwind, timeout=240, mem_gb=6, cbmc_extra=FS, replay='asan', funcs=funcs,
+                          stubs=[s.split('/')[-1][:-2] for s in stub] + ['alloc_typed (memAlloc: same size, word-typed object)'],
+                          bound='BEE2_VERIF_BLOB_EXACT: every blob is a heap object of exactly size + sizeof(size_t) octets; caller buffers exact; word=%d; concrete (klen, n, m) in %s; data symbolic' % (w, inst)))
+    h('blockmodes', 'H_BLOCKMODES', blk + [B + f for f in ('belt_ecb.c', 'belt_cbc.c', 'belt_cfb.c', 'belt_ctr.c')],
+      ['beltECBEncr', 'beltECBDecr', 'beltCBCEncr', 'beltCBCDecr', 'beltCFBEncr', 'beltCFBDecr', 'beltCTR'], [(32, 17, 5)], [(16, 16, 0), (24, 47, 33)])
+    h('disk', 'H_DISK', blk + [B + f for f in ('belt_bde.c', 'belt_sde.c', 'belt_wbl.c')], ['beltBDEEncr', 'beltBDEDecr', 'beltSDEEncr', 'beltSDEDecr'], [(32, 16, 32)], [(16, 48, 48)])
+    h('auth', 'H_AUTH', blk + [B + f for f in ('belt_mac.c', 'belt_hash.c', 'belt_hmac.c', 'belt_krp.c', 'belt_compr.c', 'belt_pbkdf.c')],
+      ['beltMAC', 'beltHash', 'beltHMAC', 'beltKRP', 'beltPBKDF2'], [(32, 17, 33)], [(16, 0, 0), (24, 32, 5)])
+    h('aead', 'H_AEAD', blk + [B + f for f in ('belt_dwp.c', 'belt_che.c', 'belt_ctr.c')] + PP, ['beltDWPWrap', 'beltDWPUnwrap', 'beltCHEWrap', 'beltCHEUnwrap'], [(32, 17, 5)], [(16, 0, 16), (24, 32, 0)])
+    h('kwp', 'H_KWP', blk + [B + 'belt_kwp.c', B + 'belt_wbl.c'], ['beltKWPWrap', 'beltKWPUnwrap'], [(32, 16, 1), (16, 17, 0)], [(24, 32, 1), (32, 48, 0)], unwind=48)
+    h('fmt', 'H_FMT', blk + [B + 'belt_fmt.c', B + 'belt_wbl.c'] + ZZ, ['beltFMTEncr', 'beltFMTDecr', 'beltFMT_keep'], [(32, 10, 9), (16, 65536, 24)], [(32, 256, 17), (24, 2, 40), (32, 65536, 9)], unwind=130)
+    h('bash', 'H_BASH', ['src/crypto/bash/bash_hash.c'], ['bashHash'], [(128, 1, 0), (256, 129, 0)], [(192, 96, 0), (16, 0, 0)], stub=(UFB,), unwind=200)
+    h('brng', 'H_BRNG', blk + ['src/crypto/brng.c'] + HASHS + [B + 'belt_hmac.c'], ['brngCTRRand', 'brngHMACRand'], [(32, 33, 16)], [(16, 1, 65), (0, 64, 0)])
+    h('botp', 'H_BOTP', blk + BOTP + HMACS, ['botpHOTPRand', 'botpHOTPVerify', 'botpTOTPRand', 'botpTOTPVerify', 'botpOCRARand'], [(32, 6, 0)], [(16, 8, 0)], unwind=140)
+    return obs
+
 def obligations(tier):
-    obs = keep_obs(tier)
+    obs = keep_obs(tier) + kernel_obs(tier) + hl_obs(tier)
     try:
         from props.C07_deep import deep_obligations
         obs += deep_obligations(tier)
